@@ -1103,6 +1103,12 @@ impl Exec {
                         Err(_) => { wellformed = false; }
                     }
                 }
+                // a gauge that is absent from the text is logged as -1 (a mismatch, not an evaluation error)
+                if resp.status_code == 200 {
+                    for name in METRIC_NAMES.iter().chain(["cycles_burnt"].iter()) {
+                        g.entry(name.to_string()).or_insert(json!(-1));
+                    }
+                }
                 let clen = resp.headers.iter().find(|(k, _)| k == "Content-Length").map(|(_, v)| v.clone());
                 let ctype = resp.headers.iter().find(|(k, _)| k == "Content-Type").map(|(_, v)| v.clone());
                 json!({"k": "ok", "status": resp.status_code, "nheaders": resp.headers.len(),
